@@ -61,6 +61,7 @@ pub fn generate(tier: Tier, rng: &mut Rng, sink: &mut dyn FnMut(RtCase)) {
     gen_srand(&mut g);
     gen_hist(&mut g);
     gen_pair(&mut g);
+    gen_spair(&mut g);
 }
 
 // ---------------------------------------------------------------------------------------------
@@ -1255,5 +1256,70 @@ fn gen_pair(g: &mut Gen) {
             rb.finish();
         }
         g.emit("pair", &ops, Body::Y(a, b, evs));
+    }
+}
+
+// ---------------------------------------------------------------------------------------------
+// spair: two streams on one graph value, interleaved; the second may be created when the first
+// has already handed out everything but its FnRefs are still held
+// ---------------------------------------------------------------------------------------------
+
+fn gen_spair(g: &mut Gen) {
+    let count = g.pick(300, 3000);
+    for k in 0..count {
+        let (ops, n) = random_graph(g.rng, 1, 6, true);
+        let graph = must_build(&ops);
+        let a = random_stream_cfg(g.rng);
+        let mut b = random_stream_cfg(g.rng);
+        if k % 2 == 0 {
+            b.rev = !a.rev; // opposite directions: the sinks of one are the roots of the other
+        }
+        let mut evs: Vec<(bool, SEv)> = Vec::new();
+        {
+            let mut runs: [Option<StreamRun>; 2] = [None, None];
+            let cfgs = [&a, &b];
+            let cap = 2 * (6 * n + 12);
+            // three shapes: fully random interleaving; A first until it has yielded everything
+            // (refs held), then B; alternate strictly
+            let shape = g.rng.below(3);
+            let mut a_exhausted = false;
+            while evs.len() < cap {
+                let side = match shape {
+                    1 if !a_exhausted => 0,
+                    2 => evs.len() % 2,
+                    _ => g.rng.below(2),
+                };
+                let run = runs[side].get_or_insert_with(|| StreamRun::new(&graph, cfgs[side]));
+                if run.stopped() {
+                    break;
+                }
+                let held = run.held_ids();
+                let e = if shape == 1 && side == 0 && !a_exhausted {
+                    SEv::Next
+                } else if !held.is_empty() && (run.finished() || run.last_pending() || g.rng.chance(1, 2)) {
+                    SEv::Drop(held[g.rng.below(held.len())])
+                } else if cfgs[side].int && g.rng.chance(1, 12) {
+                    SEv::Interrupt
+                } else {
+                    SEv::Next
+                };
+                run.apply(&e);
+                evs.push((side == 1, e));
+                if shape == 1 && side == 0 && (run.finished() || run.last_pending()) {
+                    a_exhausted = true;
+                }
+                let done = |r: &Option<StreamRun>| match r {
+                    Some(r) => r.finished() && r.held_ids().is_empty(),
+                    None => false,
+                };
+                if done(&runs[0]) && done(&runs[1]) {
+                    break;
+                }
+            }
+            for r in runs.iter_mut().flatten() {
+                r.finish();
+            }
+        }
+        g.emit("spair", &ops, Body::Z(a, b, evs));
     }
 }
